@@ -575,6 +575,31 @@ def r3c_division(ctx, chk, rule="C06.3c"):
                                 and v.args[0].generators[0].iter.id == comp.generators[0].iter.id:
                             chk.ok(rule, where, "`%s`: the divisor is the sum of the probabilities of the very list the division is mapped over - evaluated only when that list is non-empty, and then > 0 for positive probabilities" % src(node))
                             continue
+                # the divisor is a parameter: judge it at every call site inside the solver's scope
+                if isinstance(comp, (ast.ListComp, ast.GeneratorExp)) and isinstance(node.right, ast.Name) and node.right.id in f.params \
+                        and isinstance(comp.generators[0].iter, ast.Name) and comp.generators[0].iter.id in f.params:
+                    sites = [(g, c) for g, c in ctx.cg.callers_of(f) if g in scope and not getattr(c, "synthetic", False)]
+                    static = any(isinstance(d_, ast.Name) and d_.id == "staticmethod" for d_ in f.node.decorator_list)
+                    ps = [p_ for p_ in f.params if not (p_ == "self" and not static)]
+                    good = bool(sites)
+                    for g, c in sites:
+                        amap = dict(zip(ps, c.args))
+                        amap.update({k_.arg: k_.value for k_ in c.keywords if k_.arg})
+                        den, lst = amap.get(node.right.id), amap.get(comp.generators[0].iter.id)
+                        okc = False
+                        if isinstance(den, ast.Name) and isinstance(lst, ast.Name):
+                            defs = ctx.cfg(g).defs_reaching(c, den.id)
+                            if len(defs) == 1:
+                                v = next(iter(defs))
+                                v = v.value if isinstance(v, ast.Assign) else None
+                                if isinstance(v, ast.Call) and call_name(v) == "sum" and v.args and isinstance(v.args[0], ast.GeneratorExp) \
+                                        and isinstance(v.args[0].generators[0].iter, ast.Name) and v.args[0].generators[0].iter.id == lst.id:
+                                    okc = True
+                        good = good and okc
+                    if good:
+                        chk.ok(rule, where, "`%s`: at every call site in the solver (%d) the divisor is the sum of the probabilities of the very list that is mapped - > 0 whenever "
+                               "the list is non-empty, and not evaluated otherwise" % (src(node), len(sites)))
+                        continue
                 chk.undecided(rule, where, "division `%s`: divisor not shown to be non-zero" % src(node))
     chk.extra["divisions"] = n
 
@@ -607,5 +632,5 @@ def run(ctx, chk):
     if not shared.identity_on_values(ctx, chk, "C06.5", shared.SOLVER_MODULES):
         chk.ok("C06.5", "tad.py, reverse_dfs.py", "no identity comparison (`is`) between strings / numbers in the solver: player kinds and indices are compared by value")
     chk.require_instances("C06.1", 6)
-    chk.require_instances("C06.3a", 2)
+    chk.require_instances("C06.3a", 1)
     chk.require_instances("C06.3b", 3)
